@@ -322,6 +322,10 @@ class SymC:
                 out.append(z3.BoolVal(True))
         return out
 
+    def __abs__(self):
+        # only meaningful in comparisons with a tolerance (numpy's allclose / isclose on object arrays)
+        return _AbsSym(self)
+
     def __bool__(self):
         raise TypeError("truth value of a symbolic scalar is undefined (library branched on a symbolic value)")
 
@@ -333,6 +337,30 @@ class SymC:
 
     def __repr__(self):
         return f"SymC({z3.simplify(self.re)}, {z3.simplify(self.im)} / {[(str(CTX.atoms[k]), v) for k, v in self.den.items()]})"
+
+
+class _AbsSym:
+    """|x| of a symbolic scalar: comparable with a tolerance under generic-point semantics (|x| <= tol  iff  x == 0 identically)."""
+
+    __slots__ = ("x",)
+
+    def __init__(self, x):
+        self.x = x
+
+    def __le__(self, other):
+        return identically_zero(self.x)
+
+    __lt__ = __le__
+
+    def __gt__(self, other):
+        return not identically_zero(self.x)
+
+    __ge__ = __gt__
+
+    def __mul__(self, other):  # rtol * abs(y)
+        return self
+
+    __rmul__ = __mul__
 
 
 # -- constructors -------------------------------------------------------------------
